@@ -927,15 +927,15 @@ class VecBase:
             return str(self)
 
         x = format(self._x + 0.0, format_spec)
-        if '.' in x:
+        if '.' in x and 'e' not in x and 'E' not in x:
             x = x.rstrip('0').rstrip('.')
 
         y = format(self._y + 0.0, format_spec)
-        if '.' in y:
+        if '.' in y and 'e' not in y and 'E' not in y:
             y = y.rstrip('0').rstrip('.')
 
         z = format(self._z + 0.0, format_spec)
-        if '.' in z:
+        if '.' in z and 'e' not in z and 'E' not in z:
             z = z.rstrip('0').rstrip('.')
         return f'{x} {y} {z}'
 
@@ -2392,15 +2392,15 @@ class AngleBase:
             return str(self)
 
         pitch = format(self._pitch, format_spec)
-        if '.' in pitch:
+        if '.' in pitch and 'e' not in pitch and 'E' not in pitch:
             pitch = pitch.rstrip('0')
 
         yaw = format(self._yaw, format_spec)
-        if '.' in yaw:
+        if '.' in yaw and 'e' not in yaw and 'E' not in yaw:
             yaw = yaw.rstrip('0')
 
         roll = format(self._roll, format_spec)
-        if '.' in roll:
+        if '.' in roll and 'e' not in roll and 'E' not in roll:
             roll = roll.rstrip('0')
         return f'{pitch.rstrip(".")} {yaw.rstrip(".")} {roll.rstrip(".")}'
 
